@@ -68,7 +68,9 @@ theorem groups_sound (hyps : SoundHyps cx.ops cx.schema) (S rt : Name) (fs : Lis
           obtain ⟨_, hargs, hsub⟩ := hvsel
           have hgf : cx.schema.getField rt name = some fd := hagree name fd hfa
           obtain ⟨hmem, hname⟩ := getField_mem hgf hfs
-          obtain ⟨a, ha⟩ := arguments_coerce cx hyps.opsSound fd.args args hargs
+          obtain ⟨a, ha⟩ := arguments_coerce cx [] (by intro vd hvd; cases hvd)
+            (fun t d v hv _ _ => hyps.opsSound t d v hv _) fd.args args hargs
+            (excArgs_nil _ _ _ _)
             (fun x hx d hd' => hyps.defaultsOk rt name fd hgf x hx d hd') fd.args (fun _ h => h) []
           have hwt : NodeWT cx.schema cx.doc fd.type.baseName
               { alias := alias, name := name, args := args, dirs := [], sels := sels } := by
